@@ -807,3 +807,18 @@ func (p *Proc) Obs() uint64 { return p.obs }
 
 // Unlink removes a name directly (an operator's action between runs; not attributed to any process).
 func (w *World) Unlink(name string) { delete(w.names, name) }
+
+// Yield is a scheduling point announced by the harness itself (e.g. a BlockSource
+// wrapper): the current process may be preempted here.
+func (w *World) Yield(kind, name string) {
+	p := w.cur
+	if p == nil || w.Atomic {
+		return
+	}
+	p.OpCount++
+	p.point(Op{Kind: kind, Name: name})
+	p.observe(kind, name)
+}
+
+// Current returns the running process (nil outside any).
+func (w *World) Current() *Proc { return w.cur }
